@@ -59,7 +59,13 @@ func VerifHarness_C04_NowIsAFunctionOfTheContext() {
 	t := verifFullTable()
 	y, mo, d := verifrt.NondetIntRange("y", 2023, 2024), verifrt.NondetIntRange("mo", 1, 12), verifrt.NondetIntRange("d", 1, 28)
 	h, mi, s, ms := verifrt.NondetIntRange("h", 0, 23), verifrt.NondetIntRange("mi", 0, 59), verifrt.NondetIntRange("s", 0, 59), verifrt.NondetIntRange("ms", 0, 999)
-	ctx := &expr.Context{Now: time.Date(y, time.Month(mo), d, h, mi, s, ms*1000000, time.UTC), ExternalConstants: map[string]any{}}
+	// the evaluation instant carries a zone (OverrideTime takes any time.Time): the three functions read the same
+	// wall clock, that of the instant's own zone
+	loc := time.UTC
+	if verifrt.NondetBool("zoned") {
+		loc = time.FixedZone("", 60*verifrt.NondetIntRange("offsetMinutes", -14*60, 14*60))
+	}
+	ctx := &expr.Context{Now: time.Date(y, time.Month(mo), d, h, mi, s, ms*1000000, loc), ExternalConstants: map[string]any{}}
 	before := verifrt.ClockReads()
 	name := []string{"now", "today", "timeOfDay"}[verifrt.Choose("fn", 3)]
 	r1, e1 := t[name].Func(ctx, system.Collection{})
